@@ -151,7 +151,8 @@ def run(ctx):
     for t in texts:
         btext = bases[t["base"]]
         fixed = {"title": {"X1": rng.choice(lastext.TITLES["X1"])}, "names": rng.choice(["std", "lower"]),
-                 "null": rng.choice(["std", "int", "five"]), "spell_seed": rng.random()}
+                 "null": rng.choice(["std", "int", "five"]), "spell_seed": rng.random(),
+                 "neg": rng.random() < 0.4}        # every number negative: a hyphen on every data line, whatever the delimiter
         c0 = lastext.concretise(btext, rng, dict(fixed))
         c1 = lastext.concretise(t["text"], rng, dict(fixed))
         eng = rng.choice(["numpy", "normal"])
